@@ -244,9 +244,10 @@ class Ctx:
         ev = {"property_id": self.id, "tier": self.tier, "seed": self.seed, "level": self.level,
               "coverage": cov, "assumptions": self.assumptions, "wall_s": round(time.time() - self.t0, 2),
               "violations": len(self.violations)}
-        os.makedirs(os.path.join(ROOT, "evidence"), exist_ok=True)
-        with open(os.path.join(ROOT, "evidence", self.id + ".json"), "w") as f:
-            json.dump(ev, f, indent=1)
+        if not self.replay:  # a replay run re-executes one stored case; it is not a coverage run
+            os.makedirs(os.path.join(ROOT, "evidence"), exist_ok=True)
+            with open(os.path.join(ROOT, "evidence", self.id + ".json"), "w") as f:
+                json.dump(ev, f, indent=1)
         for k in self.known_hits:
             print(k)
         for path, text, no_input in self.violations:
